@@ -3,11 +3,13 @@
   `bt …` lines drive the Bigtable Model; `reset` starts from fresh state.
 -/
 import Emu.Driver.Bt
+import Emu.Driver.Gcs
 
 open Emu Emu.Driver
 
 structure St where
   bt : Emu.Bt.Server := {}
+  gcs : Emu.Gcs.Store := {}
 
 def handle (st : St) (line : String) : St × String :=
   match tokens line with
@@ -18,6 +20,12 @@ def handle (st : St) (line : String) : St × String :=
     | some (op, _) =>
       let (s', r) := Emu.Bt.step st.bt op
       ({ st with bt := s' }, showResp r)
+    | none => (st, "bad-op")
+  | "gcs" :: rest =>
+    match (do let op ← pGcsOp st.gcs; atEnd; pure op : P Emu.Gcs.Op).run rest with
+    | some (op, _) =>
+      let (s', r) := Emu.Gcs.step st.gcs op
+      ({ st with gcs := s' }, showGcsResp r)
     | none => (st, "bad-op")
   | _ => (st, "bad-op")
 
